@@ -426,6 +426,18 @@ func sameCore(a, b zapcore.Core) (same bool) {
 	return a == b
 }
 
+// IncreaseMustFail reports, for an "increase" node, whether its filter enables a level from debug to
+// fatal that the wrapped composition does not: constructing it must then fail and the wrapped core
+// stays in place.
+func (c *Comp) IncreaseMustFail() bool {
+	for l := zapcore.DebugLevel; l <= zapcore.FatalLevel; l++ {
+		if c.Enab.On(l) && !c.Kids[0].EnabledModel(l) {
+			return true
+		}
+	}
+	return false
+}
+
 // Deliver is the model for a hypothetical entry: which leaves would receive an entry at level l
 // (first occurrence of its message) and how often each hook would fire. It changes no state.
 func (c *Comp) Deliver(l zapcore.Level, leaves map[int]int, hooks map[int]int) bool {
